@@ -15,11 +15,16 @@ type CodeWriter struct {
 	WriteSemicolons bool
 
 	pendings []rune
+	// semiOmitted is true after an optional semicolon was left out (WriteSemicolons == false);
+	// semiPos is the place in the output where it would have been written
+	semiOmitted bool
+	semiPos     int
 }
 
 // WriteString writes a string to the buffer
 func (cw *CodeWriter) WriteString(s string) {
 	cw.flushPending()
+	cw.restoreSemi(s)
 	cw.Builder.WriteString(s)
 	if cw.Mapper == nil {
 		return
@@ -30,6 +35,7 @@ func (cw *CodeWriter) WriteString(s string) {
 // WriteRune writes a rune to the buffer
 func (cw *CodeWriter) WriteRune(r rune) {
 	cw.flushPending()
+	cw.restoreSemi(string(r))
 	cw.Builder.WriteRune(r)
 	if cw.Mapper == nil {
 		return
@@ -49,6 +55,36 @@ func (cw *CodeWriter) WriteSemi() {
 	}
 	if cw.WriteSemicolons {
 		cw.WriteRune(';')
+		return
+	}
+	cw.semiOmitted = true
+	cw.semiPos = cw.Builder.Len()
+}
+
+// restoreSemi writes the semicolon that WriteSemi left out when the text that
+// follows would otherwise be read as a continuation of the previous statement
+// (`a⏎(b)`, `a⏎[b]`, `a⏎-b`, a template literal) or needs it (`if (a) b; else c`).
+func (cw *CodeWriter) restoreSemi(next string) {
+	if !cw.semiOmitted {
+		return
+	}
+	next = strings.TrimLeft(next, " ")
+	if next == "" {
+		return
+	}
+	cw.semiOmitted = false
+	if strings.ContainsRune("([`+-/", rune(next[0])) || strings.HasPrefix(next, "else") {
+		// put it where it belongs: right after the previous statement, in front of
+		// any comments and line breaks written since
+		out := cw.Builder.String()
+		rest := out[cw.semiPos:]
+		cw.Builder.Reset()
+		cw.Builder.WriteString(out[:cw.semiPos])
+		cw.Builder.WriteByte(';')
+		cw.Builder.WriteString(rest)
+		if cw.Mapper != nil && !strings.Contains(rest, "\n") {
+			cw.Mapper.AdvanceColumn(1)
+		}
 	}
 }
 
